@@ -141,6 +141,23 @@ class History:
             m.update_avps({"origin_host": ident})
             self.record(m.session_id_avp.data, ident, how)
             self.acc.counters["bulk_updates"] += 1
+        elif op.startswith("shr"):
+            # the application keeps one dict of new origin values and applies it to message after message
+            if not hasattr(self, "shared"):
+                self.shared = {}
+            d = self.shared.setdefault(ident, {"origin_host": ident, "origin_realm": "example.org"})
+            before = dict(d)
+            m = DiameterMessage(DiameterHeader(command_code=316, application_id=16777251))
+            m.append(SessionIdAVP(IDS[0]))
+            self.record(m.session_id_avp.data, IDS[0], how + "(create)")
+            m.append(OriginHostAVP(IDS[0]))
+            m.append(OriginRealmAVP("example.org"))
+            m.update_avps(d)
+            self.record(m.session_id_avp.data, ident, how)
+            self.acc.counters["bulk_updates"] += 1
+            self.acc.counters["shared_dict_updates"] += 1
+            if d != before:
+                self.acc.observe("update_avps-changes-the-callers-dict")
         elif op.startswith("both"):
             # a bulk update that names the Session-Id as well: supplied bytes are carried unchanged, a supplied identity string
             # is what the new id is generated from - the Origin-Host given alongside has no say
@@ -211,7 +228,7 @@ def run_batch(b):
         acc.extra["distinct_sequences"] = acc.evaluations
         acc.sample({"exhaustive_length": L, "first_ops": b["first"], "example": list(seq)})
     else:
-        ops = OPS + ["sid2", "sid3", "upd2", "upd3", "upd4", "msg1", "msg2", "acct1", "t5", "t0.3", "new2", "nxt2", "nxt3", "raw1", "raw2", "both0", "both1", "both3", "jump16", "jump31", "jump32", "jump32"]
+        ops = OPS + ["sid2", "sid3", "upd2", "upd3", "upd4", "msg1", "msg2", "acct1", "t5", "t0.3", "new2", "nxt2", "nxt3", "raw1", "raw2", "both0", "both1", "both3", "jump16", "jump31", "jump32", "jump32", "shr1", "shr1", "shr2", "shr3"]
         for k in range(b["n"]):
             # every fourth history runs in another clock era (NTP seconds roll over on 2036-02-07 06:28:16) and/or
             # in a process that has been up for a long time
@@ -247,7 +264,7 @@ def main(tier, seed):
                            "reset(): 4*10^9 real generations are out of reach; clock eras after the NTP rollover of 2036 come from the clock shim",
                            "single-threaded histories: concurrent generation is not part of the statement's quantifier"],
                           t0, extra_cov={"distinct_nontrivial": d, "exhaustive_length": L},
-                          exhaustive=True, require_counters=("ids_generated", "bulk_updates", "bytes_passthrough", "long_uptime_histories", "other_clock_era_histories"))
+                          exhaustive=True, require_counters=("ids_generated", "bulk_updates", "bytes_passthrough", "long_uptime_histories", "other_clock_era_histories", "shared_dict_updates"))
 
 
 def replay(w):
